@@ -18,7 +18,7 @@ RULE = (
     "e-, e+, nu, nubar) x scheme/NfFF (ZM-VFNS, FFNS/FFN0/FONLL-FFNS/FONLL-FFN0 with NfFF 3-5) x PTO 0-3 x TMC 0-3. "
     "thorough: the sub-lattices listed under 'enumerated' are enumerated completely (one valid and one invalid request "
     "per cell, kinematics derived from the cell), the rest is sampled by Hypothesis; quick: Hypothesis sample. Each cell is "
-    "run with two valid kinematic points in one request (interior, on a node, x=1, large/small Q2; one cell in eight in the corner x <= 1e-6, Q2 up to 1e5 on a grid from 1e-7; often in different nf regions; one of the four scale-variation switch settings per cell) and with one invalid request (x<=0, x>1, Q2<=0, x "
+    "run with two valid kinematic points in one request (interior, on a node, x=1, large/small Q2; one cell in eight in the corner x <= 1e-6, Q2 up to 1e5 on a grid from 1e-7; often in different nf regions; one of the four scale-variation switch settings per cell; in one cell in three the card carries the order of the coefficient functions as PTODIS and an evolution order PTO different from it) and with one invalid request (x<=0, x>1, Q2<=0, x "
     "below the grid, NaN). Oracle (validity predicate): valid request -> all values and errors finite, or an explicit "
     "rejection (a `raise` of ValueError/NotImplementedError/RuntimeError); never an internal error (KeyError, IndexError, "
     "AttributeError, TypeError, ImportError, ZeroDivisionError, ...), never NaN/inf; invalid request -> always an explicit "
@@ -28,6 +28,8 @@ ASSUMPTIONS = [
     "one small fixed grid per cell family: the property is about configurations, not interpolation",
     "the scale-variation switches are not an axis of the documented lattice: each cell gets one of the four on/off combinations, "
     "derived from its hash, and two valid points which may lie in different nf regions of one run",
+    "the lattice's 'perturbative order' is the order of the coefficient functions (PTODIS, which defaults to PTO); the evolution order PTO, when "
+    "the card gives both, rides along like the scale-variation switches (one cell in three, value from the cell hash)",
     "explicit rejection = innermost frame is a raise statement of ValueError/NotImplementedError/RuntimeError (in yadism or in "
     "LeProHQ/eko/adani below it)",
 ]
@@ -35,7 +37,7 @@ BUDGET = {"quick": {"examples": 3200, "wall": 420}, "thorough": {"examples": 240
 MANDATORY = {
     t: ["valid", "invalid:x<=0", "invalid:x>1", "invalid:Q2<=0", "invalid:below-grid", "invalid:nan", "tmc:0", "tmc:1", "tmc:2", "tmc:3",
         "scheme:ZM-VFNS", "scheme:FFNS", "scheme:FFN0", "scheme:FONLL-FFNS", "scheme:FONLL-FFN0", "xs", "heavylight", "outcome:finite",
-        "outcome:rejected", "scale-variations-on", "run-spans-several-nf", "small-x-high-Q2-corner"]
+        "outcome:rejected", "scale-variations-on", "run-spans-several-nf", "small-x-high-Q2-corner", "evolution-order-above", "evolution-order-below"]
     for t in ("quick", "thorough")
 }
 SHRINK = {"quick": False, "thorough": False}
@@ -63,7 +65,11 @@ def cell_case(kind, hv, proc, sch, pto, tmc, salt=0):
     deep = (h // 13) % 8 == 0
     if deep:
         valid = [CORNER[(h // 17) % 4], CORNER[(h // 19) % 4]]
-    return {"cell": [kind, hv, list(proc), list(sch), pto, tmc], "deep": deep, "valid": valid, "invalid": inv, "inv_value": (h // 20480) % 3, "y": [0.2, 0.5, 1.0][(h // 7) % 3], "sv": sv}
+    # PTODIS (the lattice's order) next to a different evolution order PTO: one cell in three
+    pto_evol = None
+    if (h // 23) % 3 == 0:
+        pto_evol = [o for o in range(4) if o != pto][(h // 29) % 3]
+    return {"cell": [kind, hv, list(proc), list(sch), pto, tmc], "pto_evol": pto_evol, "deep": deep, "valid": valid, "invalid": inv, "inv_value": (h // 20480) % 3, "y": [0.2, 0.5, 1.0][(h // 7) % 3], "sv": sv}
 
 
 def lattice(tier):
@@ -112,6 +118,9 @@ def cases(draw, tier="quick"):
         c["valid"] = [c["valid"][0], {"x": x, "Q2": q2}]
     c["invalid"] = draw(st.sampled_from(INVALID))
     c["inv_value"] = draw(st.integers(0, 2))
+    c["pto_evol"] = draw(st.sampled_from([None, None, None, 0, 1, 2, 3]))
+    if c["pto_evol"] == pto:
+        c["pto_evol"] = None
     return c
 
 
@@ -135,6 +144,8 @@ def build(case, kins):
     kind, hv, (process, proj), (scheme, nfff), pto, tmc = case["cell"]
     ren, fact = case.get("sv", [False, False])
     th = cards.theory(PTO=pto, FNS=scheme, NfFF=nfff, TMC=tmc, RenScaleVar=ren, FactScaleVar=fact)
+    if case.get("pto_evol") is not None:
+        th["PTODIS"], th["PTO"] = pto, case["pto_evol"]
     deep = case.get("deep") and all(k.get("x") in [c["x"] for c in CORNER] for k in kins)
     ob = cards.observables(prDIS=process, ProjectileDIS=proj, interpolation_xgrid=list(DEEP if deep else GRID), interpolation_polynomial_degree=3)
     name = f"{kind}_{hv}"
@@ -170,10 +181,14 @@ def check_case(case):
         v.label("scale-variations-on")
     if case.get("deep"):
         v.label("small-x-high-Q2-corner")
+    pe = case.get("pto_evol")
+    if pe is not None:
+        v.label("evolution-order-above" if pe > pto else "evolution-order-below")
     if True:
         nfs = {cards.nf_ref(cards.theory(FNS=scheme, NfFF=nfff), k["Q2"]) for k in case["valid"] if k["Q2"] > 0}
         if len(nfs) > 1:
             v.label("run-spans-several-nf")
+    evo = "" if pe is None else f" as PTODIS with evolution order PTO={pe}"
     # ---- valid request
     th, ob, name = build(case, case["valid"])
     try:
@@ -185,13 +200,13 @@ def check_case(case):
             v.label("outcome:finite")
         else:
             v.label("outcome:nonfinite")
-            v.fail(f"C16:nonfinite:{kind}:{process}:{scheme}:pto{pto}:{'light' if hv=='light' else 'heavy-or-total'}", f"{name} ({process}/{proj}, {scheme} NfFF={nfff}, PTO={pto}, TMC={tmc}) returned NaN/inf at {case['valid']}")
+            v.fail(f"C16:nonfinite:{kind}:{process}:{scheme}:pto{pto}:{'light' if hv=='light' else 'heavy-or-total'}", f"{name} ({process}/{proj}, {scheme} NfFF={nfff}, PTO={pto}{evo}, TMC={tmc}) returned NaN/inf at {case['valid']}")
     except YadismError as e:
         if e.explicit:
             v.label("outcome:rejected", f"rejected:{e.sig}")
         else:
             v.label("outcome:internal-error")
-            v.fail(f"C16:internal:{e.sig}", f"{name} ({process}/{proj}, {scheme} NfFF={nfff}, PTO={pto}, TMC={tmc}) at {case['valid']}: {e}")
+            v.fail(f"C16:internal:{e.sig}", f"{name} ({process}/{proj}, {scheme} NfFF={nfff}, PTO={pto}{evo}, TMC={tmc}) at {case['valid']}: {e}")
     # ---- invalid request
     cls = case["invalid"]
     v.label(f"invalid:{cls}")
